@@ -98,7 +98,10 @@ SampleF(w, v, i) ==
 (*    the observation `seen' (havoc + resync).                             *)
 (*  - does not fit: dst moves to a fresh array of `newcap' cells (the Go    *)
 (*    runtime picks the size; any whole number of frames >= the length is  *)
-(*    allowed), old storage untouched.  This holds for partly filled last  *)
+(*    allowed; when the total length is NOT a whole number of frames no    *)
+(*    listed property constrains the capacity, so any capacity >= the      *)
+(*    length is accepted), old storage untouched.  This holds for partly   *)
+(*    filled last                                                          *)
 (*    frames too (C12: Go append at the cell level); before the fix of the *)
 (*    library a growing append with an unaligned total could panic.        *)
 (***************************************************************************)
@@ -115,7 +118,7 @@ AppendF(w, dv, sv, newcap, seen) ==
          ELSE R(W(SetCells(w.mem, d.a, [p \in WrittenByAppend(d, s) |->
                                            w.mem[s.a][s.off + (p - d.off - d.len)]]),
                   [w.views EXCEPT ![dv].len = nl]), "ok")
-    ELSE IF newcap >= nl /\ (d.ch = 0 \/ newcap % d.ch = 0)
+    ELSE IF newcap >= nl /\ (d.ch = 0 \/ newcap % d.ch = 0 \/ nl % d.ch # 0)
          THEN R(Canon(W(Append(w.mem, [p \in 1..newcap |->
                             IF p <= d.len THEN w.mem[d.a][d.off + p]
                             ELSE IF p <= nl THEN w.mem[s.a][s.off + (p - d.len)] ELSE 0]),
@@ -189,9 +192,12 @@ DropF(w, v) ==
 
 ----------------------------------------------------------------------------
 (* What the public API shows of a world *)
+\* `data' is the part of the capacity window the API can reach: Slice(0, Capacity()) -- the whole window whenever the
+\* capacity is a whole number of frames (always, except after a growing append with a partly filled last frame)
+Reach(x) == IF x.ch = 0 THEN 0 ELSE x.ch * (x.cap \div x.ch)
 ProjectView(w, x) ==
     [len |-> x.len, cap |-> x.cap, length |-> Length(x), capacity |-> Capacity(x),
-     ch |-> x.ch, bd |-> x.bd, data |-> [p \in 1..x.cap |-> w.mem[x.a][x.off + p]]]
+     ch |-> x.ch, bd |-> x.bd, data |-> [p \in 1..Reach(x) |-> w.mem[x.a][x.off + p]]]
 Project(w) == [i \in 1..Len(w.views) |-> ProjectView(w, w.views[i])]
 
 (* Structural invariants of every reachable world *)
